@@ -1,6 +1,12 @@
--- placeholder: regenerated from /repo/types/*.go by harness/cmd/extract on every run
+-- REGENERATED from types/*.go by harness/cmd/extract; do not edit
 namespace Uhppote.Gen.Types
-def hhmmMaxMinutesWire : Nat := 60
-def hhmmMaxMinutesText : Nat := 60
-def hhmmMaxMinutesJSON : Nat := 60
+def hhmmMaxMinutesText : Nat := 59
+def hhmmMaxHoursText : Nat := 24
+def hhmm24RuleText : Bool := true
+def hhmmMaxMinutesWire : Nat := 59
+def hhmmMaxHoursWire : Nat := 24
+def hhmm24RuleWire : Bool := true
+def hhmmMaxMinutesJSON : Nat := 59
+def hhmmMaxHoursJSON : Nat := 24
+def hhmm24RuleJSON : Bool := true
 end Uhppote.Gen.Types
